@@ -33,8 +33,8 @@ Definition env_optype_map : list (optype * option eevent) := [
 Definition env_transition_names : list eevent := [eCONFIGURE; eDEPLOY; eGO_ERROR; eRESET; eSTART_ACTIVITY; eSTOP_ACTIVITY].
 
 (* literal arguments of setState / Sm.SetState in core/ (call sites, sorted) *)
-Definition env_forced_literals : list estate := [sDONE; sERROR; sERROR; sERROR; sERROR; sERROR].
-Definition env_forced_nonliteral_sites : N := 1.
+Definition env_forced_literals : list estate := [sDONE; sERROR].
+Definition env_forced_nonliteral_sites : N := 0.
 
 (* RpcServer.DestroyEnvironment *)
 Definition env_states_for_destroy : list estate := [sCONFIGURED; sDEPLOYED; sSTANDBY].
